@@ -16,10 +16,10 @@ def readBf3 (C : Crypto) (chk : Bool) (key : Bytes) (text : Text.Str) :
   Bf3.readBinary C chk key r.2 >>= fun comps => .ok (r.1, comps)
 
 /-- `Bec2File.read_file(stream, ext_encryptors, check_cmac)` -/
-def readBec2 (env : Bec2.Env) (ext : List Bec2.Encryptor) (chk : Bool) (text : Text.Str) :
+def readBec2 (env : Bec2.Env) (ext : List Bec2.Encryptor) (chk : Bool) (text : Text.Str) (ρ : Bytes := []) :
     Except Err (List (Text.Str × Text.Str) × Bec2.File) :=
   Text.parseText text >>= fun r =>
-  Bec2.readBinary env ext chk r.2 >>= fun f => .ok (r.1, f)
+  Bec2.readBinary env ext chk r.2 ρ >>= fun f => .ok (r.1, f)
 
 /-- `Bf3File.bf2_import(stream, enforce_bf3_compatibility)` -/
 def importBf2 (text : Text.Str) (enforce : Bool) := Bf2.bf2Import text enforce
